@@ -56,6 +56,8 @@ def _build():
         for j in range(3):
             w = wkeys[(n + j) % len(wkeys)]
             shape = shapes2[(n + 2 * j) % len(shapes2)]
+            if k in ('fmt', 'a2=cat'):
+                shape = [['so', 'os'], ['os', 's'], ['oso']][j]   # str.format / concatenation of symbolic strings: small shapes
             setkw = (n + j) % 2 == 0
             quick = True
             _add('upd[%s|w=%s|set=%d|%s]' % (k, w, setkw, qh.shape_name(shape)), Q(update=upd, where=WH[w], update_set=setkw), shape, quick=quick)
